@@ -1,4 +1,5 @@
 import GapicModel.Model.Retry
+import GapicModel.Lemmas.C09
 /-
 C09 — default retry and timeout of each method equal its gRPC service-config entry (DESIGN §7.9).
 
@@ -150,6 +151,32 @@ theorem names_method_iff (c : MethodConfig) (svc meth : String) :
     subst hs hm
     exact hn
 
+/-- entries that name OTHER services never apply — in particular, for a service declared in a file of a proto
+sub-package (`acme.lib.v1.admin`), an entry that spells the service under the API's root package
+(`acme.lib.v1.Admin`): the selector carries the package of the declaring file (`selectorService`). -/
+theorem select_only_own_service (cfg : ServiceConfig) (svc meth : String)
+    (h : ∀ c ∈ cfg, ∀ n ∈ c.names, n.service ≠ some svc) : selectConfig cfg svc meth = none := by
+  rw [select_none_iff]
+  intro c hc
+  cases hn : c.namesMethod svc meth with
+  | false => rfl
+  | true =>
+    obtain ⟨n, hmem, hs, _⟩ := (names_method_iff c svc meth).1 hn
+    exact absurd hs (h c hc n hmem)
+
+/-- sub-package services: the name to use is the proto full name of the service (kernel-evaluated instances) -/
+theorem selector_sub_package_samples :
+    selectorService ["acme", "lib", "v1", "admin"] "Admin" = "acme.lib.v1.admin.Admin" ∧
+    selectorService ["acme", "lib", "v1"] "Library" = "acme.lib.v1.Library" ∧
+    (selectConfig [⟨[⟨some "acme.lib.v1.admin.Admin", some "Get"⟩], some "5s".toList, none⟩]
+      (selectorService ["acme", "lib", "v1", "admin"] "Admin") "Get").isSome = true ∧
+    selectConfig [⟨[⟨some "acme.lib.v1.Admin", some "Get"⟩, ⟨some "acme.lib_v1.admin.Admin", some "Get"⟩], some "5s".toList, none⟩]
+      (selectorService ["acme", "lib", "v1", "admin"] "Admin") "Get" = none := by
+  decide +kernel
+
+example : ∀ c ∈ ([⟨[⟨some "acme.lib.v1.Admin", some "Get"⟩], some "5s".toList, none⟩] : ServiceConfig),
+    ∀ n ∈ c.names, n.service ≠ some (selectorService ["acme", "lib", "v1", "admin"] "Admin") := by decide +kernel
+
 /-! ## Unnamed methods -/
 
 /-- **A method no entry names gets no default retry and no default timeout: exactly one attempt is made,
@@ -185,8 +212,95 @@ theorem toFloat_samples :
     toFloat? "0.250s".toList = some (1/4) ∧ toFloat? "250000000n".toList = some (1/4) ∧
     toFloat? "0.000000001s".toList = some (1/1000000000) ∧ toFloat? "7.s".toList = some 7 ∧
     toFloat? ".5s".toList = some (1/2) ∧ toFloat? "30m".toList = some 30 ∧
-    toFloat? "s".toList = none ∧ toFloat? "".toList = none ∧ toFloat? "-1s".toList = none := by
+    toFloat? "s".toList = none ∧ toFloat? "".toList = none ∧ toFloat? "-1s".toList = some (-1) ∧
+    toFloat? "1.05s".toList = some (21/20) ∧ toFloat? "2.025s".toList = some (81/40) ∧
+    toFloat? "1.000000001s".toList = some (1000000001/1000000000) ∧ toFloat? "3n".toList = some (3/1000000000) := by
   decide +kernel
+
+/-! ### `_to_float` on every well-formed literal (second deepening round) -/
+
+section ToFloat
+open GapicModel.Lemmas.C09
+
+/-- **Every decimal duration `d+.d*u` / `.d+u` is read at exactly its decimal value** — any number of integer and
+fraction digits (leading zeros of the fraction count: `1.05s` is 1 + 5/100), any final character but `n`. -/
+theorem to_float_decimal_value (ip fp : List Char) (hi : AllDigits ip) (hf : AllDigits fp)
+    (hne : ip ≠ [] ∨ fp ≠ []) (u : Char) (hu : u ≠ 'n') :
+    toFloat? (ip ++ '.' :: fp ++ [u]) = some ((digitsVal ip : Rat) + (digitsVal fp : Rat) / pow10 fp.length) := by
+  have e : ip ++ '.' :: fp ++ [u] = (ip ++ '.' :: fp) ++ [u] := by simp
+  rw [e, toFloat_snoc, if_neg hu, parseFloat_plain _ (plain_frac ip fp hi hf), parseDecimal_frac ip fp hi hf hne]
+
+/-- whole seconds `d+u` -/
+theorem to_float_whole_value (ip : List Char) (hi : AllDigits ip) (hne : ip ≠ []) (u : Char) (hu : u ≠ 'n') :
+    toFloat? (ip ++ [u]) = some (digitsVal ip : Rat) := by
+  rw [toFloat_snoc, if_neg hu, parseFloat_plain _ (plain_of_digits ip hi), parseDecimal_whole ip hi hne]
+
+/-- the nanosecond spelling `d+n` denotes that many nanoseconds -/
+theorem to_float_nanos_value (ds : List Char) (hd : AllDigits ds) (hne : ds ≠ []) :
+    toFloat? (ds ++ ['n']) = some ((digitsVal ds : Rat) / pow10 9) := by
+  rw [toFloat_snoc, if_pos rfl, parseInt_digits ds hd hne]
+  rfl
+
+/-- a leading `-` negates (JSON durations may be negative; a service config has no use for them — the reader
+accepts them all the same), a leading `+` is dropped -/
+theorem to_float_signed_value (ip fp : List Char) (hi : AllDigits ip) (hf : AllDigits fp)
+    (hne : ip ≠ [] ∨ fp ≠ []) (u : Char) (hu : u ≠ 'n') :
+    toFloat? ('-' :: ip ++ '.' :: fp ++ [u]) = some (-((digitsVal ip : Rat) + (digitsVal fp : Rat) / pow10 fp.length)) ∧
+    toFloat? ('+' :: ip ++ '.' :: fp ++ [u]) = some ((digitsVal ip : Rat) + (digitsVal fp : Rat) / pow10 fp.length) := by
+  have e1 : '-' :: ip ++ '.' :: fp ++ [u] = ('-' :: (ip ++ '.' :: fp)) ++ [u] := by simp
+  have e2 : '+' :: ip ++ '.' :: fp ++ [u] = ('+' :: (ip ++ '.' :: fp)) ++ [u] := by simp
+  constructor
+  · rw [e1, toFloat_snoc, if_neg hu, parseFloat_minus _ (plain_frac ip fp hi hf), parseDecimal_frac ip fp hi hf hne]
+    rfl
+  · rw [e2, toFloat_snoc, if_neg hu, parseFloat_plus _ (plain_frac ip fp hi hf), parseDecimal_frac ip fp hi hf hne]
+
+/-- the unit is never looked at: any final character but `n` gives the same reading (`30m` is thirty SECONDS) -/
+theorem to_float_unit_unchecked (body : List Char) (u v : Char) (hu : u ≠ 'n') (hv : v ≠ 'n') :
+    toFloat? (body ++ [u]) = toFloat? (body ++ [v]) := by
+  rw [toFloat_snoc, toFloat_snoc, if_neg hu, if_neg hv]
+
+/-- **Round trip through the canonical rendering**: `s` seconds written with `w ≥ 1` digits and a fraction of
+`f` zero-padded digits worth `n / 10^f` is read as exactly `s + n / 10^f` (protobuf's JSON printer uses
+f ∈ {0 (no point), 3, 6, 9}). -/
+theorem to_float_canonical_roundtrip (w f s n : Nat) (hw : 0 < w) (hs : s < 10 ^ w) (hn : n < 10 ^ f) :
+    toFloat? (digitsOf w s ++ '.' :: digitsOf f n ++ ['s']) = some ((s : Rat) + (n : Rat) / pow10 f) := by
+  rw [to_float_decimal_value _ _ (digitsOf_allDigits w s) (digitsOf_allDigits f n)
+        (Or.inl (digitsOf_ne_nil w s hw)) 's' (by decide),
+      digitsVal_digitsOf, digitsVal_digitsOf, digitsOf_length, Nat.mod_eq_of_lt hs, Nat.mod_eq_of_lt hn]
+
+theorem to_float_nanos_roundtrip (w n : Nat) (hw : 0 < w) (hn : n < 10 ^ w) :
+    toFloat? (digitsOf w n ++ ['n']) = some ((n : Rat) / pow10 9) := by
+  rw [to_float_nanos_value _ (digitsOf_allDigits w n) (digitsOf_ne_nil w n hw), digitsVal_digitsOf,
+      Nat.mod_eq_of_lt hn]
+
+/-- the two spellings of one duration agree: `S.NNNNNNNNNs` and `(S·10⁹+N)n` -/
+theorem seconds_nanos_spellings_agree (w s n : Nat) (hw : 0 < w) (hs : s < 10 ^ w) (hn : n < 10 ^ 9) :
+    toFloat? (digitsOf w s ++ '.' :: digitsOf 9 n ++ ['s']) = toFloat? (digitsOf (w + 9) (s * 10 ^ 9 + n) ++ ['n']) := by
+  have hlt : s * 10 ^ 9 + n < 10 ^ (w + 9) := by
+    rw [Nat.pow_add]
+    have : (10:Nat) ^ 9 = 1000000000 := by decide
+    rw [this] at hn ⊢
+    omega
+  rw [to_float_canonical_roundtrip w 9 s n hw hs hn, to_float_nanos_roundtrip (w + 9) _ (by omega) hlt, rat_split]
+
+example : digitsOf 1 1 ++ '.' :: digitsOf 2 5 ++ ['s'] = "1.05s".toList ∧
+    digitsOf 1 0 ++ '.' :: digitsOf 9 1 ++ ['s'] = "0.000000001s".toList ∧ digitsOf 1 3 ++ ['n'] = "3n".toList ∧
+    AllDigits "0123456789".toList ∧ (0 < 1 ∧ 1 < 10 ^ 1 ∧ 5 < 10 ^ 2) := by
+  refine ⟨by decide +kernel, by decide +kernel, by decide +kernel, by decide +kernel, by decide⟩
+
+/-- exponents, signs and what the model leaves out (`none`): kernel-evaluated instances, each run on the real
+`_to_float` by the harness (`DUR_SAMPLES`). -/
+theorem toFloat_exponent_samples :
+    toFloat? "1e3s".toList = some 1000 ∧ toFloat? "1.5E-3s".toList = some (3/2000) ∧
+    toFloat? "-2.5e+1s".toList = some (-25) ∧ toFloat? "+.5s".toList = some (1/2) ∧
+    toFloat? "-5n".toList = some (-5/1000000000) ∧ toFloat? "+7n".toList = some (7/1000000000) ∧
+    toFloat? "1es".toList = none ∧ toFloat? "e5s".toList = none ∧ toFloat? ".e1s".toList = none ∧
+    toFloat? "+-1s".toList = none ∧ toFloat? "-s".toList = none ∧ toFloat? "1e5e5s".toList = none ∧
+    toFloat? "1.5n".toList = none ∧ toFloat? "1e3n".toList = none ∧
+    toFloat? "1_0s".toList = none ∧ toFloat? " 1s".toList = none ∧ toFloat? "infs".toList = none := by
+  decide +kernel
+
+end ToFloat
 
 /-- **The emitted table entry carries exactly the entry's values**: `initial`/`maximum`/`multiplier` are
 the parsed `initialBackoff`/`maxBackoff`/`backoffMultiplier` (keyword omitted when the value is 0), the
@@ -238,6 +352,75 @@ theorem deadline_is_timeout (d : Option RetryInfo × Option Rat) :
     simp only [emittedDefaults, h, Option.map_some, Option.some.injEq] at hr
     subst hr
     exact ⟨rfl, rfl⟩
+
+/-! ## From the text of the config to the table (second deepening round) -/
+
+section Literals
+open GapicModel.Lemmas.C09
+
+section Aux
+theorem timeoutOf_literal (mc : MethodConfig) (lit : List Char) (r : Rat) (ht : mc.timeout = some lit)
+    (hv : toFloat? lit = some r) : timeoutOf mc = .ok (some r) := by
+  cases lit with
+  | nil => simp [toFloat?] at hv
+  | cons c cs => simp [timeoutOf, ht, dur, hv, Except.map]
+end Aux
+
+/-- **An entry whose `timeout` is the decimal literal of `s + n/10^f`** (any widths, zero padded — `1.05s`,
+`0.000000001s`, `4.050s`) **makes `default_timeout`, and with a retryPolicy the overall `deadline`, exactly that number.** -/
+theorem timeout_literal_reaches_table (cfg : ServiceConfig) (svc meth : String) (mc : MethodConfig)
+    (w f s n : Nat) (hw : 0 < w) (hs : s < 10 ^ w) (hn : n < 10 ^ f)
+    (hsel : selectConfig cfg svc meth = some mc)
+    (ht : mc.timeout = some (digitsOf w s ++ '.' :: digitsOf f n ++ ['s']))
+    (e : Emitted) (he : (methodDefaults cfg svc meth).map emittedDefaults = .ok e) :
+    e.timeout = some ((s : Rat) + (n : Rat) / pow10 f) ∧
+    ∀ r, e.retry = some r → r.deadline = some ((s : Rat) + (n : Rat) / pow10 f) := by
+  have hto := timeoutOf_literal mc _ _ ht (to_float_canonical_roundtrip w f s n hw hs hn)
+  have key : ∃ ri?, methodDefaults cfg svc meth = .ok (ri?, some ((s : Rat) + (n : Rat) / pow10 f)) := by
+    simp only [methodDefaults, hsel, hto] at he ⊢
+    cases hrp : mc.retryPolicy with
+    | none => exact ⟨none, rfl⟩
+    | some rp =>
+      simp only [hrp] at he ⊢
+      cases hri : retryInfoOf rp with
+      | error x => simp [hri, bind, Except.bind, Except.map] at he
+      | ok ri => exact ⟨some ri, rfl⟩
+  obtain ⟨ri?, hk⟩ := key
+  rw [hk] at he
+  simp only [Except.map, Except.ok.injEq] at he
+  subst he
+  exact deadline_is_timeout (ri?, _) |>.imp id (fun h r hr => (h r hr).1)
+
+/-- the same for the back-off fields: the decimal literals of `initialBackoff` / `maxBackoff` reach
+`initial=` / `maximum=` as exactly their values (0 = keyword omitted) -/
+theorem backoff_literals_reach_table (cfg : ServiceConfig) (svc meth : String) (mc : MethodConfig) (rp : RetryPolicy)
+    (w₁ f₁ s₁ n₁ w₂ f₂ s₂ n₂ : Nat) (hw₁ : 0 < w₁) (hs₁ : s₁ < 10 ^ w₁) (hn₁ : n₁ < 10 ^ f₁)
+    (hw₂ : 0 < w₂) (hs₂ : s₂ < 10 ^ w₂) (hn₂ : n₂ < 10 ^ f₂) (cls : List Exc) (t : Option Rat)
+    (hsel : selectConfig cfg svc meth = some mc) (hrp : mc.retryPolicy = some rp)
+    (hi : rp.initialBackoff = some (digitsOf w₁ s₁ ++ '.' :: digitsOf f₁ n₁ ++ ['s']))
+    (hm : rp.maxBackoff = some (digitsOf w₂ s₂ ++ '.' :: digitsOf f₂ n₂ ++ ['s']))
+    (hc : classesOf rp.codes = .ok cls) (ht : timeoutOf mc = .ok t) :
+    (methodDefaults cfg svc meth).map emittedDefaults = .ok
+      { retry := some { initial := truthy ((s₁ : Rat) + (n₁ : Rat) / pow10 f₁),
+                        maximum := truthy ((s₂ : Rat) + (n₂ : Rat) / pow10 f₂),
+                        multiplier := truthy (rp.backoffMultiplier.getD 0),
+                        predicate := cls.eraseDups, deadline := t },
+        timeout := t } :=
+  emitted_params_exact cfg svc meth mc rp _ _ cls t hsel hrp
+    (by rw [hi]; exact to_float_canonical_roundtrip w₁ f₁ s₁ n₁ hw₁ hs₁ hn₁)
+    (by rw [hm]; exact to_float_canonical_roundtrip w₂ f₂ s₂ n₂ hw₂ hs₂ hn₂) hc ht
+
+/-- hypotheses met: the entry of `a.B/Get` with timeout `4.050s`, back-off `0.05s` … `2.025000s` -/
+example :
+    let mc : MethodConfig := ⟨[⟨some "a.B", some "Get"⟩], some (digitsOf 1 4 ++ '.' :: digitsOf 3 50 ++ ['s']),
+      some ⟨none, some (digitsOf 1 0 ++ '.' :: digitsOf 2 5 ++ ['s']), some (digitsOf 1 2 ++ '.' :: digitsOf 6 25000 ++ ['s']),
+            some 3, ["UNAVAILABLE"]⟩⟩
+    selectConfig [mc] "a.B" "Get" = some mc ∧ mc.timeout = some "4.050s".toList ∧
+    ((methodDefaults [mc] "a.B" "Get").map emittedDefaults).toOption =
+      some ⟨some ⟨some (1/20), some (81/40), some 3, [.serviceUnavailable], some (81/20)⟩, some (81/20)⟩ := by
+  decide +kernel
+
+end Literals
 
 /-! ## Which errors are retried -/
 
